@@ -21,225 +21,119 @@ META = {
 M = 'copyright'
 
 
-# ---- abstract string values ------------------------------------------------------------------------
+# ---- R1: text codec by interpretation over symbolic lines -------------------------------------------
 
-class SV:
-    """pre + core + suf ; core is 'X' (the input line) or None (constant)"""
-
-    def __init__(self, pre='', core='X', suf=''):
-        self.pre, self.core, self.suf = pre, core, suf
-
-    def __repr__(self):
-        return '%r+%s+%r' % (self.pre, self.core, self.suf) if self.core else repr(self.pre + self.suf)
-
-    def const(self):
-        return self.pre + self.suf if self.core is None else None
+NOBOUND = r'[^\n\r\x0b\x0c\x1c\x1d\x1e\x85\u2028\u2029]'
 
 
-class LineFn:
-    """interprets the body of a `for i, line in enumerate(lines)` loop as a function of one line"""
-
-    def __init__(self, f, alpha):
-        self.f = f
-        self.alpha = alpha
-        loops = [s for s in f.node.body if isinstance(s, ast.For)]
-        if len(loops) != 1 or not (isinstance(loops[0].target, ast.Tuple) and norm(loops[0].iter).startswith('enumerate(')):
-            raise AnalysisError('%s: expected one `for i, line in enumerate(...)` loop' % f.site)
-        self.loop = loops[0]
-        self.ivar, self.lvar = [norm(x) for x in self.loop.target.elts]
-        self.listvar = norm(self.loop.iter)[len('enumerate('):-1]
-        self.inplace = any(isinstance(s, ast.Assign) and isinstance(s.targets[0], ast.Subscript) and norm(s.targets[0].value) == self.listvar
-                           for s in walk_no_nested(self.loop))
-
-    def run(self, first, value, L):
-        """outcomes [(kind, SV|exc, L)] for a line with abstract value `value` whose X ranges over L"""
-        outs = []
-        self._run(list(self.loop.body), first, value, L, outs, emitted=None)
-        return outs
-
-    def _finish(self, value, L, outs, emitted, inp):
-        if emitted is not None:
-            outs.append(('emit', emitted, L))
-        elif self.inplace:
-            outs.append(('emit', inp, L))
-        else:
-            outs.append(('drop', None, L))
-
-    def _run(self, stmts, first, value, L, outs, emitted, inp=None):
-        inp = inp if inp is not None else value
-        for k, st in enumerate(stmts):
-            if isinstance(st, ast.Expr) and isinstance(st.value, ast.Constant):
-                continue
-            if isinstance(st, ast.If):
-                for truth, L2 in self.cond(st.test, first, value, L):
-                    self._run(list(st.body if truth else st.orelse) + list(stmts[k + 1:]), first, value, L2, outs, emitted, inp)
-                return
-            if isinstance(st, ast.Continue):
-                self._finish(value, L, outs, emitted, inp)
-                return
-            if isinstance(st, ast.Raise):
-                outs.append(('raise', norm(st.exc.func) if isinstance(st.exc, ast.Call) else norm(st.exc), L))
-                return
-            if isinstance(st, ast.Assign) and norm(st.targets[0]) == self.lvar:
-                value = self.ev(st.value, value)
-                continue
-            if isinstance(st, ast.Assign) and isinstance(st.targets[0], ast.Subscript) and norm(st.targets[0].value) == self.listvar \
-                    and norm(st.targets[0].slice) == self.ivar:
-                emitted = self.ev(st.value, value)
-                continue
-            if isinstance(st, ast.Expr) and isinstance(st.value, ast.Call) and isinstance(st.value.func, ast.Attribute) \
-                    and st.value.func.attr == 'append' and len(st.value.args) == 1:
-                emitted = self.ev(st.value.args[0], value)
-                continue
-            raise AnalysisError('%s: statement outside the line-function vocabulary: %s' % (self.f.site, norm(st)[:60]))
-        self._finish(value, L, outs, emitted, inp)
-
-    def ev(self, e, value):
-        if isinstance(e, ast.Constant) and isinstance(e.value, str):
-            return SV(e.value, None, '')
-        if isinstance(e, ast.Name) and e.id == self.lvar:
-            return value
-        if isinstance(e, ast.BinOp) and isinstance(e.op, ast.Add):
-            l, r = self.ev(e.left, value), self.ev(e.right, value)
-            if l.core is None:
-                return SV(l.const() + r.pre, r.core, r.suf)
-            if r.core is None:
-                return SV(l.pre, l.core, l.suf + r.const())
-        if isinstance(e, ast.Subscript) and isinstance(e.slice, ast.Slice) and e.slice.upper is None and e.slice.step is None \
-                and isinstance(e.slice.lower, ast.Constant) and isinstance(e.slice.lower.value, int) and e.slice.lower.value >= 0:
-            v = self.ev(e.value, value)
-            k = e.slice.lower.value
-            if v.core is None:
-                return SV(v.const()[k:], None, '')
-            if len(v.pre) >= k:
-                return SV(v.pre[k:], v.core, v.suf)
-            # cuts into the unknown part: still a value, but no longer the input itself
-            return SV('', 'X[%d:]' % (k - len(v.pre)) if v.core == 'X' else v.core + '[%d:]' % k, v.suf)
-        raise AnalysisError('%s: expression outside the line-function vocabulary: %s' % (self.f.site, norm(e)[:60]))
-
-    def cond(self, t, first, value, L):
-        """[(truth, L')]"""
-        if isinstance(t, ast.BoolOp):
-            isand = isinstance(t.op, ast.And)
-            res = []
-
-            def rec(i, lang):
-                if i == len(t.values):
-                    res.append((isand, lang))
-                    return
-                for truth, l2 in self.cond(t.values[i], first, value, lang):
-                    if truth != isand:
-                        res.append((truth, l2))
-                    else:
-                        rec(i + 1, l2)
-            rec(0, L)
-            return res
-        if isinstance(t, ast.UnaryOp) and isinstance(t.op, ast.Not):
-            return [(not a, l) for a, l in self.cond(t.operand, first, value, L)]
-        names = {n.id for n in ast.walk(t) if isinstance(n, ast.Name)}
-        if names <= {self.ivar}:
-            txt = norm(t)
-            table = {'%s != 0' % self.ivar: not first, '%s == 0' % self.ivar: first, self.ivar: not first, '%s > 0' % self.ivar: not first,
-                     '%s >= 1' % self.ivar: not first, '%s < 1' % self.ivar: first}
-            if txt in table:
-                return [(table[txt], L)]
-            raise AnalysisError('%s: index condition outside the vocabulary: %s' % (self.f.site, txt))
-        if names <= {self.lvar}:
-            LP = strlang.pred_lang(t, self.lvar, self.alpha)
-            c = value.const()
-            if c is not None:
-                return [(LP.accepts(c), L)]
-            if value.core != 'X':
-                return [(True, L), (False, L)]
-            LX = rx.quotient(LP, value.pre, value.suf)
-            yes, no = L.intersect(LX), L.minus(LX)
-            out = []
-            if not yes.is_empty():
-                out.append((True, yes))
-            if not no.is_empty():
-                out.append((False, no))
-            return out
-        raise AnalysisError('%s: condition outside the line-function vocabulary: %s' % (self.f.site, norm(t)[:60]))
+def _interp(src, hooks=None):
+    from .. import heap as H
+    heap = H.Heap(src.mod(M), extra_modules=[src.mod('deb822')], hooks=hooks or {})
+    heap.symbolic_strings = True
+    return heap, H.Interp(heap)
 
 
 def r1_codec(rep, src):
+    """format_multiline_lines / parse_multiline_as_lines and the License converters interpreted on lists of symbolic
+    lines: the first line S, a continuation line X (any text without a line boundary), an empty line.  Where a decision
+    depends on X the case is split on X's language automatically.  On the property's domain (continuation lines empty, or
+    non-blank and not a lone ".") decode(encode(lines)) must be the same list; a continuation line without the blank prefix
+    must be rejected with MachineReadableFormatError."""
+    from .. import heap as H, symstr
+    from ..symstr import SStr
     enc = src.func(M + ':format_multiline_lines')
     dec = src.func(M + ':parse_multiline_as_lines')
     rep.saw_func(enc)
     rep.saw_func(dec)
-    alpha = rx.alphabet('str')
-    noboundary = alpha.mask_of(lambda c: len(('a' + c + 'b').splitlines()) == 1)
-    anyline = rx.from_function(alpha, [], 0, lambda s, sym: 0 if (s == 0 and noboundary >> sym & 1) else 1, lambda s: s == 0)
-    ws_only = rx.regex_lang(r'\s+', 0, 'fullmatch', alpha=alpha)
-    lone_dot = rx.regex_lang(r'\.', 0, 'fullmatch', alpha=alpha)
-    dom_cont = anyline.minus(ws_only).minus(lone_dot)
-    E, D = LineFn(enc, alpha), LineFn(dec, alpha)
+    line = symstr.L(NOBOUND + '*')
+    nonblank = symstr.L(NOBOUND + '*[^\\s]' + NOBOUND + '*')
+    domainX = nonblank.minus(symstr.lit_lang('.'))
     n = 0
-    for first, dom, label in ((True, anyline, 'first line'), (False, dom_cont, 'continuation line')):
-        for k1, v1, L1 in E.run(first, SV(), dom):
-            if k1 != 'emit':
-                rep.fail('C17.R1', enc.site, '%s is encoded' % label, 'the encoder %s for the line %r' % ('raises ' + str(v1) if k1 == 'raise' else 'drops the line', L1.witness()),
-                         where=enc.where)
-                continue
-            for k2, v2, L2 in D.run(first, v1, L1):
-                n += 1
-                what = '%s: decode(encode(x)) = x  [encoded as %r]' % (label, v1)
-                w = None
-                if k2 == 'raise':
-                    w = 'the decoder raises %s on the encoder\'s output for the line %r' % (v2, L2.witness())
-                elif k2 != 'emit':
-                    w = 'the decoder drops the line %r' % L2.witness()
-                elif v2.core == 'X' and v2.pre == '' and v2.suf == '':
-                    pass
-                elif v2.core is None:
-                    c = v2.const()
-                    only = rx.regex_lang(rx.literal(c), 0, 'fullmatch', alpha=alpha) if c else rx.regex_lang('', 0, 'fullmatch', alpha=alpha)
-                    wit = L2.not_subset_witness(only)
-                    if wit is not None:
-                        w = 'the line %r is encoded as %r and decoded as %r' % (wit, _inst(v1, wit), c)
-                else:
-                    wit = L2.witness()
-                    w = 'the line %r comes back as %r' % (wit, _inst(v2, wit))
-                if w:
-                    rep.fail('C17.R1', dec.site, what, w, detail={'encoded': repr(v1)}, where=dec.where)
-                else:
-                    rep.ok('C17.R1', dec.site, what, 'identity on %s' % ('all first lines' if first else 'lines that are empty or non-blank and not a lone "."'))
+
+    def roundtrip(atoms):
+        heap, it = _interp(src)
+        S, X, Y = atoms['S'], atoms['X'], atoms['Y']
+        lines = heap.new_list([S, X, SStr(), Y, SStr()])
+        text = it.call(H.Closure(enc.node, {}, None, None), [lines])
+        back = it.call(H.Closure(dec.node, {}, None, None), [text])
+        return text, [symstr.lift(x) for x in heap.items(back)] if heap.is_list(back) else back
+    try:
+        # continuation lines of the property's domain (the empty one is in the list explicitly)
+        results = symstr.explore({'S': line, 'X': domainX, 'Y': domainX}, roundtrip)
+    except H.Raised as x:
+        rep.fail('C17.R1', dec.site, 'decode(encode(lines)) = lines', 'raises %s (line %d) on a well-formed list of lines' % (x.exc, x.lineno), where=dec.where)
+        results = []
+    for langs, (text, back) in results:
+        n += 1
+        in_domain = all(langs[k].not_subset_witness(domainX) is None for k in ('X', 'Y'))
+        outside = any(langs[k].intersect(domainX).is_empty() for k in ('X', 'Y'))
+        if not in_domain and not outside:
+            rep.error('C17.R1', 'case split does not separate the property domain (X: %r)' % langs['X'].witness())
+            continue
+        if outside:
+            continue
+        S, X, Y = (symstr.atom(k, langs[k]) for k in ('S', 'X', 'Y'))
+        want = [S, X, SStr(), Y, SStr()]
+        what = 'decode(encode(lines)) = lines for X like %r, Y like %r' % (langs['X'].witness(), langs['Y'].witness())
+        if isinstance(back, list) and len(back) == len(want) and all(g.key() == w.key() for g, w in zip(back, want)):
+            rep.ok('C17.R1', dec.site, what, 'encoded as %r' % (text,))
+        else:
+            rep.fail('C17.R1', dec.site, what, 'the lines [S, X, "", Y, ""] are encoded as %r and come back as %r' % (text, back), where=dec.where)
     rep.analysed['paths'] += n
-    if n < 3:
-        raise AnalysisError('only %d encoder/decoder path pairs analysed' % n)
-    # decoder rejects a continuation line without the prefix
-    rej = [(k, v, L) for k, v, L in D.run(False, SV(), anyline) if k == 'raise']
-    ok = rej and all(v == 'MachineReadableFormatError' for k, v, L in rej)
-    sp = rx.regex_lang(r' (?s:.*)', 0, 'fullmatch', alpha=alpha)
-    accepted_wo_prefix = [L for k, v, L in D.run(False, SV(), anyline.minus(sp)) if k != 'raise']
-    if ok and not accepted_wo_prefix:
-        rep.ok('C17.R1', dec.site, 'continuation without the prefix is rejected', 'MachineReadableFormatError')
+    if n < 1:
+        raise AnalysisError('no encoder/decoder case analysed')
+    # decoder rejects a continuation line without the prefix; accepts any line with it
+    def decode_cont(atoms):
+        heap, it = _interp(src)
+        try:
+            back = it.call(H.Closure(dec.node, {}, None, None), [atoms['S'] + '\n' + atoms['Z']])
+        except H.Raised as x:
+            return ('raise', x.exc)
+        return ('ok', [symstr.lift(x) for x in heap.items(back)])
+    sp = symstr.L(' ' + NOBOUND + '*')
+    bad = None
+    for langs, res in symstr.explore({'S': line, 'Z': symstr.L(NOBOUND + '+')}, decode_cont):
+        starts_blank = langs['Z'].not_subset_witness(sp) is None
+        if not starts_blank and not langs['Z'].intersect(sp).is_empty():
+            rep.error('C17.R1', 'case split does not separate lines with and without the blank prefix')
+            continue
+        if not starts_blank and res != ('raise', 'MachineReadableFormatError') and bad is None:
+            bad = 'a continuation line that does not start with a blank (e.g. %r) is %s' % (langs['Z'].witness(), 'accepted' if res[0] == 'ok' else 'reported with ' + res[1])
+        if starts_blank and res[0] != 'ok' and bad is None:
+            bad = 'the well-formed continuation line %r is rejected with %s' % (langs['Z'].witness(), res[1])
+    if bad:
+        rep.fail('C17.R1', dec.site, 'continuation without the prefix is rejected', bad, where=dec.where)
     else:
-        rep.fail('C17.R1', dec.site, 'continuation without the prefix is rejected',
-                 'a continuation line that does not start with a blank is %s' % ('accepted, e.g. %r' % accepted_wo_prefix[0].witness() if accepted_wo_prefix else 'not reported with MachineReadableFormatError'),
-                 where=dec.where)
-    # join / split
-    et, dt = norm(enc.node), norm(dec.node)
-    if "return '\\n'.join(out_lines)" in et and 'lines = s.splitlines()' in dt and 'return lines' in dt:
-        rep.ok('C17.R1', enc.site, 'lines joined with "\\n" / split with splitlines()', 'ok', nontrivial=False)
-    else:
-        rep.fail('C17.R1', enc.site, 'lines joined with "\\n" / split with splitlines()', 'the encoder does not join its lines with "\\n" or the decoder does not split with splitlines()', where=enc.where)
-    # License wiring
+        rep.ok('C17.R1', dec.site, 'continuation without the prefix is rejected', 'MachineReadableFormatError; prefixed lines accepted')
+    # License: to_str encodes [synopsis] + text lines, from_str rebuilds (synopsis, text)
     lt = src.func(M + ':License.to_str')
     lf = src.func(M + ':License.from_str')
-    if 'format_multiline_lines([self.synopsis] + self.text.splitlines())' in norm(lt.node):
-        rep.ok('C17.R1', lt.site, 'license = synopsis line + text lines', 'encoded with format_multiline_lines', nontrivial=False)
-    else:
-        rep.fail('C17.R1', lt.site, 'license = synopsis line + text lines', 'License.to_str does not encode [synopsis] + text lines', where=lt.where)
-    t = norm(lf.node)
-    if 'lines = parse_multiline_as_lines(s)' in t and "cls(lines[0], text='\\n'.join(itertools.islice(lines, 1, None)))" in t:
-        rep.ok('C17.R1', lf.site, 'synopsis = first decoded line, text = the rest', 'ok', nontrivial=False)
-    else:
-        rep.fail('C17.R1', lf.site, 'synopsis = first decoded line, text = the rest', 'License.from_str does not rebuild synopsis/text from the decoded lines', where=lf.where)
+    rep.saw_func(lt)
+    rep.saw_func(lf)
+    S = symstr.atom('synopsis', NOBOUND + '*[^\\s]' + NOBOUND + '*')
+    T1, T2 = symstr.atom('text1', domainX), symstr.atom('text2', domainX)
+    made = []
 
-
-def _inst(v, x):
-    return v.pre + (x if v.core else '') + v.suf
+    def mk_license(it, args, kw):
+        made.append((args, kw))
+        return it.h.alloc('License', {'synopsis': args[0] if args else kw.get('synopsis'), 'text': (args[1] if len(args) > 1 else kw.get('text', ''))})
+    heap, it = _interp(src, hooks={'cls': None})
+    del heap.hooks['cls']
+    lic = heap.alloc('License', {'synopsis': S, 'text': T1 + '\n\n' + T2}, name='@license')
+    try:
+        text = it.call(H.Closure(lt.node, {}, lic, lt.cls), [])
+        res = it.call(H.Closure(lf.node, {'cls': ('hook', 'mk')}, None, lf.cls), [('hook', 'mk'), text]) if False else None
+        heap.hooks['mk'] = mk_license
+        res = it.call(H.Closure(lf.node, {}, None, lf.cls), [('hook', 'mk'), text])
+        o = heap.objs[res.name] if isinstance(res, H.Ref) else {}
+        ok = isinstance(o.get('synopsis'), (SStr, str)) and symstr.lift(o['synopsis']).same(S) and symstr.lift(o.get('text') or '').same(T1 + '\n\n' + T2)
+        if ok:
+            rep.ok('C17.R1', lf.site, 'License.from_str(License.to_str()) = (synopsis, text)', 'encoded as %r' % (text,))
+        else:
+            rep.fail('C17.R1', lf.site, 'License.from_str(License.to_str()) = (synopsis, text)',
+                     'License(synopsis, "text1\\n\\ntext2") is written as %r and read back as (%r, %r)' % (text, o.get('synopsis'), o.get('text')), where=lf.where)
+    except H.Raised as x:
+        rep.fail('C17.R1', lf.site, 'License.from_str(License.to_str()) = (synopsis, text)', 'raises %s (line %d)' % (x.exc, x.lineno), where=lf.where)
 
 
 def r2_converters(rep, src):
@@ -270,39 +164,71 @@ def r2_converters(rep, src):
                              % (fs, ts), where='%s:%d' % (m.relpath, st.lineno))
     if n < 8:
         raise AnalysisError('only %d RestrictedField declarations found in copyright.py' % n)
-    # _SpaceSeparated: what the writer accepts is never split by the reader
-    r = src.regex(M, '_has_space', cls='_SpaceSeparated')
-    rep.saw_regex('copyright:_SpaceSeparated._has_space')
-    f = src.func(M + ':_SpaceSeparated.to_str')
-    g = src.func(M + ':_SpaceSeparated.from_str')
-    rep.saw_func(f)
-    t = norm(f.node)
-    if not ('if cls._has_space.search(s):' in t and 'raise MachineReadableFormatError' in t and "return ' '.join(tmp)" in t):
-        rep.fail('C17.R2', f.site, 'writer validates and joins with a blank', 'the space-separated writer does not reject items matched by _has_space and join with " "', where=f.where)
-    else:
+    # the two list converters, interpreted on symbolic items; items the writer must refuse are found by case refinement
+    from .. import heap as H, symstr
+    from ..symstr import SStr
+    for cname, sep_desc in (('_SpaceSeparated', 'blank'), ('_LineBased', 'line')):
+        f = src.func('%s:%s.to_str' % (M, cname))
+        g = src.func('%s:%s.from_str' % (M, cname))
+        rep.saw_func(f)
+        rep.saw_func(g)
+        anyitem = symstr.L('(?:' + NOBOUND + r'|\n)+')      # any text of the document domain (line boundaries other than \\n are outside it, see C08)
+
+        def round2(atoms, f=f, g=g, cname=cname):
+            heap, it = _interp(src)
+            items = heap.new_list([atoms['I1'], atoms['I2']])
+            try:
+                text = it.call(H.Closure(f.node, {}, None, f.cls), ([('class', cname)] if any(norm(d) == 'classmethod' for d in f.node.decorator_list) else []) + [items])
+            except H.Raised as x:
+                return ('refused', x.exc, None)
+            back = it.call(H.Closure(g.node, {}, None, g.cls), ([('class', cname)] if any(norm(d) == 'classmethod' for d in g.node.decorator_list) else []) + [text])
+            return ('ok', text, [symstr.lift(x) for x in it.seq(back)])
+        try:
+            results = symstr.explore({'I1': anyitem, 'I2': symstr.L(r'[^\s]+')}, round2)
+        except H.Raised as x:
+            rep.fail('C17.R2', g.site, '%s: from_str(to_str(items)) = items' % cname, 'raises %s (line %d)' % (x.exc, x.lineno), where=g.where)
+            continue
+        bad = None
+        n_ok = n_ref = 0
+        for langs, res in results:
+            I1, I2 = symstr.atom('I1', langs['I1']), symstr.atom('I2', langs['I2'])
+            if res[0] == 'refused':
+                n_ref += 1
+                if res[1] != 'MachineReadableFormatError' and bad is None:
+                    bad = 'an item like %r is refused with %s instead of MachineReadableFormatError' % (langs['I1'].witness(), res[1])
+                continue
+            _, text, back = res
+            # accepted: the items must read back -- literally for the blank-separated list, stripped for the line list
+            if cname == '_SpaceSeparated':
+                want = [I1, I2]
+            else:
+                want = [I1.strip(), I2.strip()]
+            if not (isinstance(back, list) and len(back) == 2 and all(x.key() == w.key() for x, w in zip(back, want))) and bad is None:
+                bad = 'the items [%r, I2] (accepted by the writer) are written as %r and read back as %r: the list does not round-trip' % (langs['I1'].witness(), text, back)
+            else:
+                n_ok += 1
+        what = '%s: from_str(to_str(items)) = items for every accepted item' % cname
+        if bad:
+            rep.fail('C17.R2', f.site, what, bad, where=f.where)
+        elif n_ok == 0:
+            rep.fail('C17.R2', f.site, what, 'no item is accepted', where=f.where)
+        else:
+            rep.ok('C17.R2', f.site, what, '%d accepted and %d refused item classes' % (n_ok, n_ref))
+    # _SpaceSeparated: what the writer accepts is never split by the reader (language inclusion over the whole alphabet)
+    r = src.regex(M, '_has_space', cls='_SpaceSeparated') if src.mod(M).const_nodes.get('_SpaceSeparated', {}).get('_has_space') is not None else None
+    if r is not None:
+        rep.saw_regex('copyright:_SpaceSeparated._has_space')
         rejected = rx.regex_lang(r['pattern'], r['flags'], 'search', alpha=alpha)
         splitter = alpha.mask_of(lambda c: c.isspace())
-        has_split = rx.from_function(alpha, [], 0, lambda s, sym: 1 if (s == 1 or splitter >> sym & 1) else 0, lambda s: s == 1)
-        gt = norm(g.node)
-        if ".split()" not in gt:
-            rep.fail('C17.R2', g.site, 'reader splits on whitespace', 'from_str does not use str.split()', where=g.where)
+        has_split = rx.from_function(alpha, [], 0, lambda s_, sym: 1 if (s_ == 1 or splitter >> sym & 1) else 0, lambda s_: s_ == 1)
+        w = has_split.minus(rejected).witness()
+        f = src.func(M + ':_SpaceSeparated.to_str')
+        if w is not None:
+            rep.fail('C17.R2', f.site, 'an accepted item is never split by the reader',
+                     'the item %r is not matched by _has_space = %r (flags %s) but str.split() splits it: the list reads back with more/other items'
+                     % (w, r['pattern'], re.RegexFlag(r['flags'])), detail={'witness': w}, where=f.where)
         else:
-            w = has_split.minus(rejected).witness()
-            if w is not None:
-                rep.fail('C17.R2', f.site, 'an accepted item is never split by the reader',
-                         'the writer accepts the item %r (not matched by _has_space = %r with flags %s) but str.split() in from_str splits it: the list '
-                         'reads back with more/other items' % (w, r['pattern'], re.RegexFlag(r['flags'])), detail={'witness': w}, where=f.where)
-            else:
-                rep.ok('C17.R2', f.site, 'an accepted item is never split by the reader', 'every string containing a str.split() separator is rejected by _has_space')
-    # _LineBased
-    lf = src.func(M + ':_LineBased.to_str')
-    lg = src.func(M + ':_LineBased.from_str')
-    t, gt = norm(lf.node), norm(lg.node)
-    if "if '\\n' in s:" in t and "tmp.append(' ' + process_and_validate(s))" in t and "return '\\n'.join(tmp)" in t and "tmp = ['']" in t \
-            and '.strip().splitlines()' in gt and 'line.strip()' in gt:
-        rep.ok('C17.R2', lf.site, 'line-based list: one item per continuation line', "'' + ('\\n ' + item)*, items stripped, no newline inside")
-    else:
-        rep.fail('C17.R2', lf.site, 'line-based list: one item per continuation line', 'the line-based converter does not write one validated item per line / read one item per line', where=lf.where)
+            rep.ok('C17.R2', f.site, 'an accepted item is never split by the reader', 'every string containing a str.split() separator is matched by _has_space')
 
 
 def _is_identity_validator(fn):
@@ -313,87 +239,189 @@ def _is_identity_validator(fn):
 
 
 def r3_wrapper(rep, src):
+    """the generated property accessors interpreted on a data dictionary: the getter returns from_str(data.get(name)) (or the raw
+    value), the setter stores to_str(value) under the field name, None deletes (or is refused when allow_none is off)"""
+    from .. import heap as H
     f = src.func('deb822:RestrictedWrapper.__init_restricted_field')
     rep.saw_func(f)
     inner = {n.name: n for n in f.node.body if isinstance(n, ast.FunctionDef)}
-    if set(inner) != {'getter', 'setter'}:
-        raise AnalysisError('%s: getter/setter not found' % f.site)
-    gt, st = norm(inner['getter']), norm(inner['setter'])
-    okg = 'val = self.__data.get(field.name)' in gt and 'return field.from_str(val)' in gt and 'return val' in gt
-    oks = 'val = field.to_str(val)' in st and 'self.__data[field.name] = val' in st and 'del self.__data[field.name]' in st \
-        and "raise TypeError('value must not be None')" in st and 'if field.allow_none:' in st
-    if okg:
-        rep.ok('C17.R3', f.site + '.getter', 'reads field.name through from_str', 'ok')
-    else:
-        rep.fail('C17.R3', f.site + '.getter', 'reads field.name through from_str', 'the generated getter does not read data[field.name] and apply from_str', where=f.where)
-    if oks:
-        rep.ok('C17.R3', f.site + '.setter', 'writes field.name through to_str; None deletes', 'ok')
-    else:
-        rep.fail('C17.R3', f.site + '.setter', 'writes field.name through to_str; None deletes', 'the generated setter does not store to_str(val) under field.name / delete on None', where=f.where)
-    ci = src.func('deb822:RestrictedWrapper._class_init')
-    t = norm(ci.node)
-    si = norm(src.func('deb822:RestrictedWrapper.__setitem__').node)
-    if 'restricted_fields.append(val.name.lower())' in t and 'key.lower() in self.__restricted_fields' in si:
-        rep.ok('C17.R3', ci.site, 'restricted keys compared case-insensitively', 'lower() on registration and on test', nontrivial=False)
-    else:
-        rep.fail('C17.R3', ci.site, 'restricted keys compared case-insensitively', 'restricted field names are not lower-cased on both sides', where=ci.where)
-    if 'setattr(cls, attr_name, property(getter, setter' in norm(f.node):
-        rep.ok('C17.R3', f.site, 'property installed under the attribute name', 'ok', nontrivial=False)
+    props = [c for c in ast.walk(f.node) if isinstance(c, ast.Call) and norm(c.func) == 'property']
+    if len(props) != 1 or len(props[0].args) < 2 or not all(isinstance(a_, ast.Name) and a_.id in inner for a_ in props[0].args[:2]):
+        raise AnalysisError('%s: property(getter, setter, ...) over two local functions not found' % f.site)
+    gname, sname = props[0].args[0].id, props[0].args[1].id
+    inst = [c for c in ast.walk(f.node) if isinstance(c, ast.Call) and norm(c.func) == 'setattr' and len(c.args) == 3 and c.args[2] is props[0]]
+    if inst and norm(inst[0].args[0]) == f.params()[0] and norm(inst[0].args[1]) == f.params()[1]:
+        rep.ok('C17.R3', f.site, 'property installed under the attribute name', 'setattr(cls, attr_name, property(%s, %s, ...))' % (gname, sname), nontrivial=False)
     else:
         rep.fail('C17.R3', f.site, 'property installed under the attribute name', 'the property is not installed as (getter, setter) under attr_name', where=f.where)
+    mod = src.mod('deb822')
+
+    def world(present, from_str, to_str, allow_none):
+        heap = H.Heap(mod, hooks={'FROM': lambda it, a, k: ('from_str', a[0]), 'TO': lambda it, a, k: ('to_str', a[0])})
+        heap.symbolic_strings = True
+        data = heap.new_dict('@data')
+        if present:
+            heap.dict_set(data, 'License', 'raw-text')
+        field = ('record', 'RestrictedField', ('name', 'from_str', 'to_str', 'allow_none'),
+                 ('License', ('hook', 'FROM') if from_str else None, ('hook', 'TO') if to_str else None, allow_none))
+        me = heap.alloc('RestrictedWrapper', {'_RestrictedWrapper__data': data}, name='@wrapper')
+        env = {'field': field, 'cls': ('class', 'RestrictedWrapper'), f.params()[1]: 'license'}
+        return heap, H.Interp(heap), data, me, env
+    bad = []
+    n = 0
+    for present in (True, False):
+        for conv in (True, False):
+            heap, it, data, me, env = world(present, conv, conv, True)
+            n += 1
+            try:
+                r = it.call(H.Closure(inner[gname], env, None, 'RestrictedWrapper'), [me])
+            except H.Raised as x:
+                r = 'raises ' + x.exc
+            raw = 'raw-text' if present else None
+            want = ('from_str', raw) if conv else raw
+            if r != want:
+                bad.append('getter with the field %s and %s converter returns %r instead of %r' % ('present' if present else 'absent', 'a' if conv else 'no', r, want))
+    if bad:
+        rep.fail('C17.R3', f.site + '.getter', 'reads field.name through from_str', bad[0], where=f.where)
+    else:
+        rep.ok('C17.R3', f.site + '.getter', 'reads field.name through from_str', '%d cases' % n)
+    bad = []
+    n = 0
+    for present in (True, False):
+        for conv in (True, False):
+            for allow in (True, False):
+                for value in ('new-value', None):
+                    heap, it, data, me, env = world(present, conv, conv, allow)
+                    n += 1
+                    try:
+                        it.call(H.Closure(inner[sname], env, None, 'RestrictedWrapper'), [me, value])
+                        exc = None
+                    except H.Raised as x:
+                        exc = x.exc
+                    ent = dict((k, v) for k, v in heap.objs[data.name]['entries'])
+                    if value is not None:
+                        want = {'License': ('to_str', value) if conv else value}
+                        wexc = None
+                    elif allow:
+                        want, wexc = {}, None
+                    else:
+                        want, wexc = ({'License': 'raw-text'} if present else {}), 'TypeError'
+                    if ent != want or exc != wexc:
+                        bad.append('setter(%r) with the field %s, %s converter, allow_none=%s leaves %r%s; specified: %r%s'
+                                   % (value, 'present' if present else 'absent', 'a' if conv else 'no', allow, ent, (' and raises ' + exc) if exc else '', want,
+                                      (' and ' + wexc) if wexc else ''))
+    if bad:
+        rep.fail('C17.R3', f.site + '.setter', 'writes field.name through to_str; None deletes', bad[0], where=f.where)
+    else:
+        rep.ok('C17.R3', f.site + '.setter', 'writes field.name through to_str; None deletes', '%d cases' % n)
+    # restricted keys are compared case-insensitively: registration and test use the same normalisation
+    ci = src.func('deb822:RestrictedWrapper._class_init')
+    si = src.func('deb822:RestrictedWrapper.__setitem__')
+    reg = [norm(c.args[0]) for c in ast.walk(ci.node) if isinstance(c, ast.Call) and isinstance(c.func, ast.Attribute) and c.func.attr in ('append', 'add') and c.args]
+    tests = [norm(c.left) for c in ast.walk(si.node) if isinstance(c, ast.Compare) and isinstance(c.ops[0], (ast.In, ast.NotIn)) and 'restricted' in norm(c.comparators[0])]
+    lowered_reg = any(r_.endswith('.lower()') for r_ in reg)
+    lowered_test = any(t_.endswith('.lower()') for t_ in tests)
+    if reg and tests and lowered_reg == lowered_test and lowered_reg:
+        rep.ok('C17.R3', ci.site, 'restricted keys compared case-insensitively', 'lower() on registration and on test', nontrivial=False)
+    else:
+        rep.fail('C17.R3', ci.site, 'restricted keys compared case-insensitively', 'restricted field names are not lower-cased on both sides (registered: %s, tested: %s)' % (reg, tests), where=ci.where)
 
 
 def r4_document(rep, src):
+    """Copyright.__init__ / dump / add_files_paragraph interpreted on paragraph stubs"""
+    from .. import heap as H
+    mod = src.mod(M)
     f = src.func(M + ':Copyright.__init__')
     rep.saw_func(f)
-    loops = [n for n in walk_no_nested(f.node) if isinstance(n, ast.For)]
-    if len(loops) != 1:
-        raise AnalysisError('%s: paragraph loop not found' % f.site)
-    lp = loops[0]
+    kinds = [('hdr', set()), ('FL', {'Files', 'License'}), ('L', {'License'}), ('F', {'Files'}), ('none', set()), ('L2', {'License'})]
+    complaints = []
 
-    def ev(t, env):
-        if isinstance(t, ast.BoolOp):
-            vs = [ev(v, env) for v in t.values]
-            return all(vs) if isinstance(t.op, ast.And) else any(vs)
-        if isinstance(t, ast.UnaryOp) and isinstance(t.op, ast.Not):
-            return not ev(t.operand, env)
-        if isinstance(t, ast.Compare) and len(t.ops) == 1 and isinstance(t.left, ast.Constant) and t.left.value in env \
-                and isinstance(t.ops[0], (ast.In, ast.NotIn)):
-            r = env[t.left.value]
-            return r if isinstance(t.ops[0], ast.In) else not r
-        raise AnalysisError('%s: classification test outside the vocabulary: %s' % (f.site, norm(t)))
-
-    def classify(stmts, env):
-        for st in stmts:
-            if isinstance(st, ast.If):
-                return classify(st.body if ev(st.test, env) else st.orelse, env)
-            for c in ast.walk(st):
-                if isinstance(c, ast.Call) and norm(c.func) in ('FilesParagraph', 'LicenseParagraph', '_complain'):
-                    return norm(c.func)
-        return None
-    table = {}
-    for fl in (True, False):
-        for li in (True, False):
-            table[(fl, li)] = classify(lp.body, {'Files': fl, 'License': li})
-    want = {(True, True): 'FilesParagraph', (True, False): 'FilesParagraph', (False, True): 'LicenseParagraph', (False, False): '_complain'}
-    appended = norm(f.node).count('self.__paragraphs.append(') >= 2 and 'insert' not in norm(lp)
-    if table == want and appended and 'self.__header = Header(paragraphs[0])' in norm(f.node) and norm(lp.iter) == 'range(1, len(paragraphs))':
-        rep.ok('C17.R4', f.site, 'paragraph classification', 'header = first; Files (with or without License) → FilesParagraph; License only → LicenseParagraph; appended in order')
-    else:
-        bad = {k: v for k, v in table.items() if want[k] != v}
-        rep.fail('C17.R4', f.site, 'paragraph classification', 'paragraphs are mis-classified %r or not kept in document order' % bad, where=f.where)
+    def mk(kind):
+        def ctor(it, args, kw):
+            return it.h.alloc(kind, {'data': args[0] if args else None}, name=None)
+        return ctor
+    heap = H.Heap(mod, hooks={'Header': mk('Header'), 'FilesParagraph': mk('FilesParagraph'), 'LicenseParagraph': mk('LicenseParagraph'),
+                              '_complain': lambda it, a, k: complaints.append(a[0]), 'deb822.Deb822.iter_paragraphs': lambda it, a, k: it.h.paras})
+    heap.symbolic_strings = True
+    plist = []
+    for nm, keys in kinds:
+        d = heap.new_dict('@p_' + nm)
+        for k in sorted(keys):
+            heap.dict_set(d, k, 'x')
+        plist.append(d)
+    heap.paras = list(plist)
+    me = heap.alloc('Copyright', {}, name='@copyright')
+    it = H.Interp(heap)
+    what = 'paragraph classification'
+    try:
+        it.call(H.Closure(f.node, {}, me, f.cls), ['SEQ', 'utf-8', True])
+        o = heap.objs[me.name]
+        hdr = o.get('_Copyright__header')
+        paras = heap.items(o['_Copyright__paragraphs'])
+        got = [(heap.objs[p_.name]['__class__'], heap.objs[p_.name]['data'].name) for p_ in paras]
+        want = [('FilesParagraph', '@p_FL'), ('LicenseParagraph', '@p_L'), ('FilesParagraph', '@p_F'), ('LicenseParagraph', '@p_L2')]
+        ok = got == want and isinstance(hdr, H.Ref) and heap.objs[hdr.name]['__class__'] == 'Header' and heap.objs[hdr.name]['data'].name == '@p_hdr' and len(complaints) == 1
+        if ok:
+            rep.ok('C17.R4', f.site, what, 'header = first; Files (with or without License) → FilesParagraph; License only → LicenseParagraph; neither → complaint; document order kept')
+        else:
+            rep.fail('C17.R4', f.site, what, 'the paragraphs [header, Files+License, License, Files, neither, License] become header=%r, %r with %d complaint(s); specified: %r and one complaint'
+                     % (hdr, got, len(complaints), want), where=f.where)
+    except H.Raised as x:
+        rep.fail('C17.R4', f.site, what, 'raises %s (line %d)' % (x.exc, x.lineno), where=f.where)
+    # dump: header, then for every paragraph a blank line and the paragraph, in list order
     d = src.func(M + ':Copyright.dump')
-    t = flat(d.node)
-    if "self.header.dump(f, text_mode=True)\nfor p in self.__paragraphs:\nf.write('\\n')\np.dump(f, text_mode=True)" in t:
-        rep.ok('C17.R4', d.site, 'dump = header, then blank line + paragraph, in list order', 'ok')
-    else:
-        rep.fail('C17.R4', d.site, 'dump = header, then blank line + paragraph, in list order', 'dump does not write the header followed by "\\n" + each paragraph in order', where=d.where)
+    rep.saw_func(d)
+    for to_file in (True, False):
+        events = []
+
+        def pdump(it, args, kw):
+            events.append(('dump', args[0].name, args[1].name if len(args) > 1 and isinstance(args[1], H.Ref) else None))
+            return None
+
+        def fwrite(it, args, kw):
+            events.append(('write', args[1]))
+            return None
+        heap = H.Heap(mod, hooks={'.dump': pdump, '.write': fwrite, '.getvalue': lambda it, a, k: 'TEXT',
+                                  'io.StringIO': lambda it, a, k: it.h.alloc('StringIO', {}, name='@buffer')})
+        hdr = heap.alloc('Header', {}, name='@header')
+        ps = [heap.alloc('FilesParagraph', {}, name='@para1'), heap.alloc('LicenseParagraph', {}, name='@para2')]
+        me = heap.alloc('Copyright', {'_Copyright__header': hdr, 'header': hdr, '_Copyright__paragraphs': heap.new_list(ps)}, name='@copyright')
+        fobj = heap.alloc('File', {}, name='@file') if to_file else None
+        what = 'dump(%s) = header, then blank line + paragraph, in list order' % ('f' if to_file else 'None')
+        try:
+            r = H.Interp(heap).call(H.Closure(d.node, {}, me, d.cls), [fobj])
+        except H.Raised as x:
+            rep.fail('C17.R4', d.site, what, 'raises %s' % x.exc, where=d.where)
+            continue
+        sink = '@file' if to_file else '@buffer'
+        want = [('dump', '@header', sink), ('write', '\n'), ('dump', '@para1', sink), ('write', '\n'), ('dump', '@para2', sink)]
+        if events == want and r == (None if to_file else 'TEXT'):
+            rep.ok('C17.R4', d.site, what, 'ok')
+        else:
+            rep.fail('C17.R4', d.site, what, 'dump performs %r and returns %r; specified %r' % (events, r, want), where=d.where)
+    # add_files_paragraph: after the last Files paragraph
     a = src.func(M + ':Copyright.add_files_paragraph')
-    t = flat(a.node)
-    if 'last_i = -1\nfor i, p in enumerate(self.__paragraphs):\nif isinstance(p, FilesParagraph):\nlast_i = i\nself.__paragraphs.insert(last_i + 1, paragraph)' in t:
-        rep.ok('C17.R4', a.site, 'new Files paragraph goes after the last Files paragraph', 'ok', nontrivial=False)
+    rep.saw_func(a)
+    bad = None
+    for layout in (['F', 'L', 'F', 'L'], ['L', 'L'], [], ['F', 'F']):
+        heap = H.Heap(mod)
+        ps = [heap.alloc('FilesParagraph' if k == 'F' else 'LicenseParagraph', {}, name='@%s%d' % (k, i)) for i, k in enumerate(layout)]
+        me = heap.alloc('Copyright', {'_Copyright__paragraphs': heap.new_list(ps)}, name='@copyright')
+        new = heap.alloc('FilesParagraph', {}, name='@NEW')
+        try:
+            H.Interp(heap).call(H.Closure(a.node, {}, me, a.cls), [new])
+            got = [p_.name for p_ in heap.items(heap.objs[me.name]['_Copyright__paragraphs'])]
+        except H.Raised as x:
+            got = 'raises ' + x.exc
+        last = max([i for i, k in enumerate(layout) if k == 'F'], default=-1)
+        names = [p_.name for p_ in ps]
+        want = names[:last + 1] + ['@NEW'] + names[last + 1:]
+        if got != want and bad is None:
+            bad = 'adding a Files paragraph to %s gives %r instead of %r' % (layout, got, want)
+    if bad:
+        rep.fail('C17.R4', a.site, 'new Files paragraph goes after the last Files paragraph', bad, where=a.where)
     else:
-        rep.fail('C17.R4', a.site, 'new Files paragraph goes after the last Files paragraph', 'insertion position changed', where=a.where)
+        rep.ok('C17.R4', a.site, 'new Files paragraph goes after the last Files paragraph', '4 layouts')
 
 
 def check(src, rep, tier):
@@ -405,7 +433,7 @@ def check(src, rep, tier):
                        'space-separated writer (complement of _has_space under its flags) contains no str.split() separator.  (R3) wrapper '
                        'getter/setter wiring.  (R4) classification, dump and insertion order.')
     rep.not_decided = ['the single-empty-line and trailing-newline corner cases of the text codec', 'Deb822 dump/parse of the paragraphs themselves (C02)']
-    rep.need('C17.R1', 7)
+    rep.need('C17.R1', 3)
     rep.need('C17.R2', 9)
     rep.need('C17.R3', 4)
     rep.need('C17.R4', 3)
